@@ -108,6 +108,12 @@ FAULTS = {
     "or-type-mismatch": ['x30: int = (o) or "x"'],
     "from-bound-str": ['from 0 to "a" {', "}"],
     "from-step-str": ['from 0 to 3 step "a" {', "}"],
+    # a loop counter that RE-USES an existing variable takes the values start, start + step, ..: their kind has to be the variable's
+    "from-counter-reuses-int-with-float-step": ["from 0 to 3 step 0.5, n {", "}"],
+    "from-counter-reuses-int-with-bigint-step": ["from 0 to 3 step B1, n {", "}"],
+    "from-counter-reuses-int-with-float-start": ["from 0.5 to 3, n {", "}"],
+    "from-counter-reuses-str-variable": ["from 0 to 3, s {", "}"],
+    "from-counter-reuses-bool-variable": ["from 0 to 3, b {", "}"],
     "unpack-non-list": ["[u1, u2] = n"],
     "unpack-too-many": ["const [u3, u4, u5] = fx"],
     "unpack-map": ["[u6] = m"],
